@@ -205,7 +205,9 @@ def scan (tbl : Table) (acc : Accepts) (files : Files) (args : List Str) : Res :
 
 /-! ### option declarations and the table (`availableOptions`) -/
 
-inductive Base | bool | int (bits : Nat) | uint (bits : Nat) | f32 | f64 | str | dur | log
+/- `wbool`: a boolean behind a user-defined `Value` (not a `*GeneralValue` holding a `*bool`): it takes a value, it is
+   not a flag -/
+inductive Base | bool | int (bits : Nat) | uint (bits : Nat) | f32 | f64 | str | dur | log | wbool
 deriving DecidableEq, Repr
 
 structure Kind where
@@ -360,6 +362,7 @@ def typed (orc : Oracle) : Base → Str → Option String
   | .dur, s => orcFind orc tagDur s
   | .str, s => some (hexOf s)
   | .log, s => if s = strReject then none else some (hexOf s)
+  | .wbool, s => (parseBool s).map toString
 
 def kindOfId (includeDefault : Bool) (decls : List Decl) (id : Nat) : Option Kind :=
   if id < firstUserId then (if id = idHelp || includeDefault then some ⟨.bool, false⟩ else none)
